@@ -33,7 +33,7 @@ def jobs(unit, tier, only=None):
                 continue
             out.append(Job('c10_L%d_%s' % (L, m.id), 'FixedString<L>::' + m.call, 'cw_' + m.id,
                            fs.make_build(unit, m, L, K, False, methods), backend='sat',
-                           unwind=K + L + 4, timeout=300 if tier == 'quick' else 2400, instance={'L': L, 'K': K},
+                           unwind=K + L + 4, timeout=900 if tier == 'quick' else 2400, instance={'L': L, 'K': K},
                            bounded=None))
         # cross-capacity members: the other operand is a FixedString<S2>
         for S2 in fs.cross_caps(L, tier):
@@ -42,7 +42,7 @@ def jobs(unit, tier, only=None):
                 if getattr(m, 'cross', False) and not (S2 == L and m.only_diff):
                     out.append(Job('c10_L%dx%d_%s' % (L, S2, m.id), 'FixedString<L>::' + getattr(m, 'disp', m.call), 'cw_' + m.id,
                                    fs.make_build(unit, m, L, K, False, methods, S2=S2), backend='sat',
-                                   unwind=K + L + S2 + 4, timeout=300 if tier == 'quick' else 2400, instance={'L': L, 'K': K, 'S2': S2}, bounded=None))
+                                   unwind=K + L + S2 + 4, timeout=900 if tier == 'quick' else 2400, instance={'L': L, 'K': K, 'S2': S2}, bounded=None))
     # the 255/256 length-type boundary (uint8_t / uint16_t length field): "light" contracts (invariant + safety, no content
     # ghosts) for the methods that finish there (measured: 33 of 94 within 300 s); the fast ones also in the quick tier
     if True:
